@@ -1052,3 +1052,42 @@ pub(crate) fn verif_shortest_unused_sequence(literal: &[u8], f: u8) -> usize {
 pub(crate) fn verif_longest_char_sequence(literal: &[u8], ch: u8) -> usize {
     longest_char_sequence(literal, ch)
 }
+
+/// Verification hooks (only with `--cfg comrak_verif`): thin pass-throughs to private items of the
+/// CommonMark writer.
+#[cfg(comrak_verif)]
+#[doc(hidden)]
+pub mod verif_hooks {
+    use super::{CommonMarkFormatter, Escaping};
+    use crate::nodes::{AstNode, NodeValue};
+    use crate::parser::Options;
+
+    /// `CommonMarkFormatter::outc` on a formatter whose buffer holds `prev` (not at the start of a
+    /// line) with the given `begin_content`; `escaping` is 1 = Normal, 2 = Url, 3 = Title, else
+    /// Literal. Returns the bytes `outc` appended.
+    pub fn outc(prev: &[u8], begin_content: bool, c: u8, escaping: u8, nextc: Option<u8>) -> Vec<u8> {
+        let arena = super::Arena::new();
+        let root: &AstNode = arena.alloc(AstNode::from(NodeValue::Document));
+        let options = Options::default();
+        let mut f = CommonMarkFormatter::new(root, &options);
+        f.v.extend_from_slice(prev);
+        f.begin_line = false;
+        f.begin_content = begin_content;
+        let e = match escaping {
+            1 => Escaping::Normal,
+            2 => Escaping::Url,
+            3 => Escaping::Title,
+            _ => Escaping::Literal,
+        };
+        let n = f.v.len();
+        f.outc(c, e, nextc.as_ref());
+        f.v[n..].to_vec()
+    }
+
+    /// `table_escape` for a node of the given value.
+    pub fn table_escape(value: NodeValue, c: u8) -> bool {
+        let arena = super::Arena::new();
+        let node: &AstNode = arena.alloc(AstNode::from(value));
+        super::table_escape(node, c)
+    }
+}
